@@ -46,6 +46,8 @@ claimed = {
    "16 theorems incl. pst13_complete(_list), trim keeps exactly degree <= s; partial: general-(n,D) completeness of the enumeration (proved on the property's whole grid). Harness: Combinations hook vs model, real setup on the grid (key set = all exponent vectors, every element = m(beta)*g, pairing relations), trapdoor-mode commit/open/check with mutations."),
  "C19": ("Lean proof (shape theorems of the prover models, batch proof count, linear-code dimension inequalities) + measured serialized sizes against each scheme's law",
    "KZG/Marlin/Sonic proof = 1 element (+1 scalar iff hiding), commitment +1 element iff bound, one proof per distinct point label; PST13 nv elements; IPA 2*log2(d+1); Hyrax 2^(n/2); linear codes: constant commitment, proof within 4x of the best power-of-two matrix shape once t < codeword length. Partial: the full-ceiling inequality and the f64 sqrt are tied by correspondence."),
+ "C13": ("Lean proof (exact integer form of the soundness bound, tSpec least, index range, RS and Brakedown encoders linear) + calculate_t vs exact bound on a grid",
+   "19 theorems: the cleared-denominator bound is equivalent to 2(1-d/2)^t + n/q <= 2^-lambda over Q, monotone, tSpec is the least t (capped at n), the search cap is justified, indices < n, Reed-Solomon and Brakedown encoders are linear of the declared length. Partial: calculate_t is f64 code and is tied to tSpec by the correspondence run (238K grid points quick, 3.96M thorough, with an independent big-integer evaluation of the bound at t and t-1); known finding D16 at relative distance exactly 1."),
 }
 # properties whose machinery is not built yet (listed under not_applicable with that reason, as the brief asks)
 not_yet = {
